@@ -177,15 +177,22 @@ def observe(mp):
 
 
 def gauge_stable(mp):
+    """True / False, or the string 'interference' when canonicalising a COPY changed mp itself (this auxiliary
+    sequence is an interference program 'derive by copy; mutate the copy; observe the source')"""
     try:
+        s0 = Snap(mp)
         r0 = chain_repr(mp)
+        ok = True
         for left in (True, False):
             c = mp.copy()
             if c.site_num >= 2:
                 c.ensure_left_canonical() if left else c.ensure_right_canonical()
             if not repr_close(r0, chain_repr(c), rel=1e-7):
-                return False
-        return True
+                ok = False
+        d = s0.diff(Snap(mp))
+        if "tensors" in d or "labels" in d or "coeff" in d:
+            return "interference"
+        return ok
     except Exception:
         return False
 
@@ -239,6 +246,7 @@ class ChainEnv:
         self.objs["H0"] = self.H0
         self.objs["H1"] = self.H1
         self.holstein = True
+        self.objs["Oc"] = Mpo.onsite(self.model, r"a^\dagger")        # total label 1: apply() must add it to a COPY
         self._qn_states(qntot=1)
 
     def _build_elec(self):
@@ -271,6 +279,8 @@ class ChainEnv:
         self.objs["H1"] = self.H1
         self.holstein = False
         self.edesc = desc
+        if se:
+            self.objs["Oc"] = Mpo(self.model, Op(r"a^\dagger", se[0]))
         self._qn_states(qntot=None)
 
     def _build_spin(self):
@@ -429,7 +439,7 @@ def chain_ops(env):
         x, y = env.objs[a], env.objs[b]
         if not np.all(np.asarray(x.qntot) == np.asarray(y.qntot)):
             return None
-        fold = not np.allclose(x.coeff, y.coeff)
+        fold = bool(x.coeff != y.coeff)      # the code may fold unequal prefactors into the tensors
         how = int(rng.integers(0, 3))
         call = [lambda: x.add(y), lambda: x + y, lambda: x - y][how]
         return "Mps.add" + ("" if how < 2 else "(sub)"), [a, b], fold, call, dict(fold=fold, same=a == b)
@@ -440,7 +450,7 @@ def chain_ops(env):
         x, y = env.objs[a], env.objs[b]
         if not np.all(np.asarray(x.qntot) == np.asarray(y.qntot)):
             return None
-        fold = not np.allclose(x.coeff, y.coeff)
+        fold = bool(x.coeff != y.coeff)      # the code may fold unequal prefactors into the tensors
         return "MpDm.add", [a, b], fold, lambda: x.add(y), dict(fold=fold)
 
     def op_add_mpo():
@@ -452,7 +462,7 @@ def chain_ops(env):
         names = env.states(mps_only=True)
         a, b = env.pick(names), env.pick(names)
         x, y = env.objs[a], env.objs[b]
-        fold = not np.allclose(x.coeff, y.coeff)
+        fold = bool(x.coeff != y.coeff)      # the code may fold unequal prefactors into the tensors
 
         def call():
             x.distance(y)
@@ -783,7 +793,12 @@ def run_chain_call(run, env, thunk):
                 # only label-consistent objects may join the pool: a re-gauging sweep must preserve them.  (Sums of
                 # states with different centres carry wrong labels - D1, C03/C06's business - and the VMF/CMF
                 # evolutions legitimately canonicalise their argument.)
-                if not gauge_stable(result):
+                gs = gauge_stable(result)
+                if gs == "interference":
+                    report(run, "interference:copy:canonicalise:derived-changes-source:labels",
+                           dict(env=env.desc, note="canonicalising a copy of the result of this operation changed the result",
+                                op=name, args=args, extra=extra, state=L.ser_mp(result)))
+                elif not gs:
                     run.count(f"pool-rejected:labels-inconsistent:{name}")
                 else:
                     env.add_obj(pre, result)
@@ -1362,6 +1377,16 @@ def tree_program(run, env):
 
 
 # ------------------------------------------------------------------------------------ driver
+def guarded(run, where, fn, *a):
+    """exceptions escaping from the harness's own auxiliary use of the library (snapshots, preparation, pool
+    management) are counted, never reported: they carry no judgement on the property"""
+    try:
+        return fn(*a)
+    except Exception as e:
+        run.count(f"harness-exception:{where}:{type(e).__name__}")
+        return None
+
+
 def search(run, rng, quick):
     SEEN.clear()
     TIMES.clear()
@@ -1408,15 +1433,15 @@ def search(run, rng, quick):
             for th in calls:
                 if time.time() - t0 > budget:
                     break
-                run_chain_call(run, env, th)
+                guarded(run, "chain-call", run_chain_call, run, env, th)
                 nev += 1
                 note(env)
             for _ in range(6 if quick else 12):
                 if time.time() - t0 > budget:
                     break
-                chain_program(run, env)
+                guarded(run, "chain-program", chain_program, run, env)
                 nev += 1
-            model_copy_program(run, env)
+            guarded(run, "model-copy", model_copy_program, run, env)
             run.sample(dict(env=env.desc, ops=[l["op"] for l in env.log][:10]))
             t_chain += time.time() - ts
         else:
@@ -1438,13 +1463,13 @@ def search(run, rng, quick):
             for th in calls:
                 if time.time() - t0 > budget:
                     break
-                run_tree_call(run, env, th)
+                guarded(run, "tree-call", run_tree_call, run, env, th)
                 nev += 1
                 note(env)
             for _ in range(6 if quick else 12):
                 if time.time() - t0 > budget:
                     break
-                tree_program(run, env)
+                guarded(run, "tree-program", tree_program, run, env)
                 nev += 1
             run.sample(dict(env=env.desc, ops=[l["op"] for l in env.log][:10]))
             t_tree += time.time() - ts
